@@ -642,9 +642,11 @@ class CompositeDataSource(DataSource):
         if not self.has_data_sources():
             raise AttributeError("CompositeDataSource has no data sources")
 
-        results = []
-        for ds in self.data_sources:
-            results.extend(ds.related_to(*args, **kwargs))
+        # A Relationship and the objects it refers to may be held by
+        # different data sources, so navigate the federation as a whole
+        # (federated relationships() and query()) rather than each data
+        # source in isolation.
+        results = super(CompositeDataSource, self).related_to(*args, **kwargs)
 
         # remove exact duplicates (where duplicates are STIX 2.0
         # objects with the same 'id' and 'modified' values)
